@@ -22,6 +22,7 @@ HEADER = ('From Coq Require Import ZArith List String Bool.\nFrom PK Require Imp
 T = enums.Tags
 POOL = ['a', 'b', 'c', 'd', 'e']
 ASI_POOL = [('ns0', 'd0'), ('ns1', 'd1'), ('ns0', 'd1'), ('ns2', 'd0'), ('n', '')]
+ASI_BOUNDARY = [('vault', ''), ('', 'x'), ('', '')]     # empty text in each sub-field of the structure (legal TTLV)
 V1 = [(1, 0), (1, 1), (1, 2), (1, 3), (1, 4)]
 V2 = (2, 0)
 OBS_VER = (1, 4)
@@ -104,9 +105,9 @@ def value_for(name, rng, obs=None):
     if name == 'Name':
         return ['T', rng.choice(POOL) if rng.random() < 0.93 else '']      # the empty name is a legal TTLV text string
     if name == 'Object Group':
-        return ['T', rng.choice(POOL)]
+        return ['T', rng.choice(POOL) if rng.random() < 0.93 else '']
     if name == 'Application Specific Information':
-        a = rng.choice(ASI_POOL)
+        a = rng.choice(ASI_POOL) if rng.random() < 0.85 else rng.choice(ASI_BOUNDARY)
         return ['A', a[0], a[1]]
     if name in ('Sensitive', 'Fresh'):
         return ['B', rng.random() < 0.5]
@@ -467,7 +468,8 @@ def sig_of(st, ver, kind):
 
 
 _WEAK = [0]
-STRONG = ('protected-changed', 'failure-changed-store', 'failed-batch-item-left-trace', 'other-object-changed', 'inexact-effect')
+STRONG = ('protected-changed', 'failure-changed-store', 'failed-batch-item-left-trace', 'failed-batch-item-changed-store',
+          'other-object-changed', 'inexact-effect')
 
 
 def strong_found(ctx):
@@ -865,6 +867,148 @@ def run_batch(ctx, w, workdir):
     return ok1, ok2
 
 
+BOUNDARY_OBJECT = {'names': ['a', 'b'], 'groups': ['g', 'h'], 'asi': [['ns0', 'd0'], ['ns1', 'd1']]}
+
+
+def boundary_steps():
+    """Set/Modify/Delete requests with values and indices at their boundaries, aimed at object 1 of BOUNDARY_OBJECT:
+    empty text in every sub-field of structured values, empty names and groups, index absent / 0 / last / -1 / one past the
+    end, current value matching / absent / empty.  Deterministic."""
+    out = []
+    asi_vals = [['A', a, b] for a, b in ASI_BOUNDARY] + [['A', 'n', 'd']]
+    text_vals = [['T', ''], ['T', 'q']]
+    for v in asi_vals:
+        for idx in (None, 0, 1, -1, 2):
+            out.append({'form': 'mod', 'v': 1, 'attr': ['Application Specific Information', idx, v]})
+        for cur in (['A', 'ns1', 'd1'], ['A', 'zz', ''], ['A', '', '']):
+            out.append({'form': 'mod', 'v': 2, 'new': ['Application Specific Information', v], 'cur': cur})
+    for name, stored in (('Name', 'b'), ('Object Group', 'h')):
+        for v in text_vals:
+            for idx in (None, 0, 1, -1, 2):
+                out.append({'form': 'mod', 'v': 1, 'attr': [name, idx, v]})
+            for cur in (['T', stored], ['T', 'zz'], ['T', ''], None):
+                out.append({'form': 'mod', 'v': 2, 'new': [name, v], 'cur': cur})
+        out.append({'form': 'set', 'v': 2, 'new': [name, ['T', '']]})
+    for name, stored, empty in (('Name', ['T', 'b'], ['T', '']), ('Object Group', ['T', 'h'], ['T', '']),
+                                ('Application Specific Information', ['A', 'ns1', 'd1'], ['A', '', ''])):
+        for idx in (None, 0, 1, -1, 2):
+            out.append({'form': 'del', 'v': 1, 'name': name, 'idx': idx})
+        for cur in (stored, empty, ['A', 'ns1', ''] if stored[0] == 'A' else ['T', 'zz']):
+            out.append({'form': 'del', 'v': 2, 'cur': [name, cur]})
+        out.append({'form': 'del', 'v': 2, 'ref': name})
+    for b in (True, False):
+        out.append({'form': 'set', 'v': 2, 'new': ['Sensitive', ['B', b]]})
+        out.append({'form': 'mod', 'v': 2, 'new': ['Sensitive', ['B', b]], 'cur': ['B', not b]})
+        out.append({'form': 'mod', 'v': 1, 'attr': ['Sensitive', None, ['B', b]]})
+        out.append({'form': 'mod', 'v': 1, 'attr': ['Sensitive', 0, ['B', b]]})
+    out.append({'form': 'del', 'v': 1, 'name': 'Sensitive', 'idx': 0})
+    out.append({'form': 'del', 'v': 1, 'name': '', 'idx': 0})
+    return out
+
+
+def run_boundary_batch(ctx, w, workdir):
+    """w = {'objects', 'items': [B on object 1, G on object 2], 'version', 'option'}: ONE request with two items, the second a
+    committing item that succeeds on ANOTHER object.  Judged on the store after the whole batch AND after a reload (new
+    engine and session on the same database): an item that failed must have changed nothing, an item that succeeded exactly
+    its addressed instance, an item that was not executed (Stop) nothing; the third object and all protected attributes stay."""
+    b, g = w['items']
+    ver = tuple(w['version'])
+    opt = enums.BatchErrorContinuationOption[w['option']]
+    eng = fresh_engine(workdir)
+    try:
+        for s in w['objects']:
+            make_object(eng, s)
+        pre_dump = eng.dump()
+        pre, _ = observe(eng, pre_dump)
+        r = eng.request([build_item(b), build_item(g)], version=ver, user='alice', batch_option=opt)
+        if r['error'] is not None:
+            raise RuntimeError('boundary batch refused as a whole: %r' % (r['error'],))
+        res = [('SUCCESS' if kdrv.ok(it) else it['reason']) for it in r['items']]
+        ok_b = res[0] == 'SUCCESS'
+        if not ok_b and w['option'] == 'STOP':
+            if len(res) != 1:
+                ctx.violation(sig_of(b, ver, 'batch-not-stopped'), dict(w, results=res), 'Stop batch continued after a failed item')
+        elif len(res) != 2:
+            raise RuntimeError('batch answered %d items' % len(res))
+        ok_g = len(res) == 2 and res[1] == 'SUCCESS'
+        want = [dict(o) for o in pre]
+        problems = []
+        for st, okk, k in ((b, ok_b, 0), (g, ok_g, 1)):
+            if okk:
+                exp = expected_after_success(st, ver, pre[k])
+                if isinstance(exp, str):
+                    problems.append(('no-exact-effect-possible', st, exp))
+                else:
+                    want[k][exp[0]] = exp[1]
+        views = []
+        for phase in ('after the batch', 'after a reload'):
+            if phase == 'after a reload':
+                eng.restart()
+            dump = eng.dump()
+            post, _ = observe(eng, dump)
+            views.append(post)
+            if protected_from_dump(dump) != protected_from_dump(pre_dump):
+                problems.append(('protected-changed', b, 'a protected attribute changed (%s)' % phase))
+            if not ok_b and not ok_g and dump != pre_dump:
+                problems.append(('failure-changed-store', b, 'no item succeeded but the database changed (%s)' % phase))
+            for k, (st, okk) in enumerate(((b, ok_b), (g, ok_g), (None, None))):
+                if k < len(post) and post[k] != want[k] and not any(p[0] == 'no-exact-effect-possible' and p[1] is st for p in problems):
+                    d = {f: (want[k][f], post[k][f]) for f in FIELDS if want[k][f] != post[k][f]}
+                    if st is None:
+                        problems.append(('other-object-changed', b, 'object 3, which no item addresses, changed (%s): %r' % (phase, d)))
+                    elif okk:
+                        problems.append(('inexact-effect', st, 'a successful batch item did not change exactly its addressed instance (%s): %r' % (phase, d)))
+                    else:
+                        problems.append(('failed-batch-item-changed-store', st,
+                                         'a batch item that %s changed its object (%s): expected vs observed %r'
+                                         % ('failed' if k < len(res) else 'was not executed', phase, d)))
+        seen = set()
+        for kind, st, text in problems:
+            if kind in seen:
+                continue
+            seen.add(kind)
+            if kind == 'no-exact-effect-possible':
+                if _WEAK[0] >= 10:
+                    continue
+                _WEAK[0] += 1
+            ctx.violation(sig_of(st, ver, kind), dict(w, results=res, before=pre, after_batch=views[0], after_reload=views[-1]), text)
+        return res
+    finally:
+        eng.close()
+
+
+def boundary_batch_oracle(ctx, workdir):
+    quick = ctx.tier == 'quick'
+    types = list(TYPES)
+    steps = boundary_steps()
+    n = 0
+    for j, b0 in enumerate(steps):
+        for oi, option in enumerate(('CONTINUE', 'STOP')):
+            if quick and option == 'STOP' and (j + ctx.seed) % 3:
+                continue
+            for t in (types if not quick else [types[(j + oi + ctx.seed) % 7]]):
+                if not quick and (j + types.index(t)) % 3 and option == 'STOP':
+                    continue
+                ver = V2 if b0['v'] == 2 else V1[(j + ctx.seed) % 5]
+                if b0['form'] in ('mod',) and b0.get('attr') and b0['attr'][0] == 'Sensitive':
+                    ver = (1, 4)
+                b = {k: v for k, v in b0.items() if k != 'v'}
+                b.update({'k': 'attr', 'ver': list(ver), 'user': 'alice', 'uid': '1'})
+                if ver >= V2:
+                    g = {'form': 'mod', 'new': ['Object Group', ['T', 'committed']], 'cur': ['T', 'g']}
+                else:
+                    g = {'form': 'mod', 'attr': ['Object Group', 0, ['T', 'committed']]}
+                g.update({'k': 'attr', 'ver': list(ver), 'user': 'alice', 'uid': '2'})
+                objs = [dict(BOUNDARY_OBJECT, type=t, user='alice', via='register', sens=None, mask=12),
+                        dict(BOUNDARY_OBJECT, type=types[(j + 3) % 7], user='alice', via='register', sens=None, mask=12),
+                        dict(BOUNDARY_OBJECT, type='SYMMETRIC_KEY', user='bob', via='register', sens=True, mask=12)]
+                res = run_boundary_batch(ctx, {'objects': objs, 'items': [b, g], 'version': list(ver), 'option': option}, workdir)
+                n += 1
+                ctx.count('bbatch.%s.%s.%s' % (option, 'SUCCESS' if res[0] == 'SUCCESS' else 'failed', len(res)))
+                ctx.case_seen(('bbatch', option, json.dumps(b0, sort_keys=True), t, tuple(res)), nontrivial=True)
+    return n
+
+
 def batch_frame_oracle(ctx, rng, workdir, rounds):
     """A failed attribute item followed by a succeeding one in the same batch (shared SQLAlchemy session, CONTINUE):
     the failed item must leave no trace in what the later commit writes."""
@@ -1002,9 +1146,12 @@ def run(ctx):
                 for o in h['objects']:
                     o['mask'] = None
                 run_history(ctx, h, work)
-    order = {'protected-changed': 0, 'other-object-changed': 1, 'failure-changed-store': 2, 'inexact-effect': 3,
+    order = {'protected-changed': 0, 'other-object-changed': 1, 'failure-changed-store': 2, 'failed-batch-item-changed-store': 2,
+             'inexact-effect': 3,
              'failed-batch-item-left-trace': 4, 'no-exact-effect-possible': 5}
     n = batch_frame_oracle(ctx, ctx.subrng('batch'), work, 30 if ctx.tier == 'quick' else 300)
+    nb = boundary_batch_oracle(ctx, work)
+    ctx.log('boundary batch oracle: %d two-item batches (Continue and Stop), judged after the batch and after a reload' % nb)
     ctx.violations.sort(key=lambda v: order.get(v['signature'].get('kind'), 9))
     ctx.log('batch frame oracle: %d batches' % n)
     if cases:
@@ -1021,6 +1168,13 @@ def replay(ctx, data):
     load_local_findings(ctx)
     w = data.get('input') or {}
     hist = w.get('history')
+    if hist is None and 'items' in w:
+        res = run_boundary_batch(ctx, {k: w[k] for k in ('objects', 'items', 'version', 'option')}, ctx.work)
+        print('batch items:', res)
+        print('violations reproduced:', len(ctx.violations))
+        for v in ctx.violations[:5]:
+            print(' -', v['what'], json.dumps(v['signature'], sort_keys=True))
+        return 1 if ctx.violations else 0
     if hist is None and 'batch' in w:
         ok1, ok2 = run_batch(ctx, {'objects': w['objects'], 'batch': w['batch'], 'version': w['version']}, ctx.work)
         print('batch items:', 'SUCCESS' if ok1 else 'failed', 'SUCCESS' if ok2 else 'failed')
